@@ -585,6 +585,32 @@ pub fn c07(args: &[String]) {
             }
         }));
     }
+    // ReloadWatchers polled in tight loops against the rewrites: a rewrite that happened since the last `true`
+    // (the id read before the poll is newer than the id read right after that `true`) must be reported
+    let missed_reports = Arc::new(AtomicU64::new(0));
+    let polls = Arc::new(AtomicU64::new(0));
+    for i in 0..3 {
+        let stop = stop.clone();
+        let missed_reports = missed_reports.clone();
+        let polls = polls.clone();
+        readers.push(std::thread::spawn(move || {
+            trace::set_thread(&format!("w{}", i + 1));
+            let mut w = h.reload_watcher();
+            let mut seen = crate::front::rid_of(h.last_reload_id());
+            let mut n = 0u64;
+            while !stop.load(Ordering::Relaxed) {
+                let pre = crate::front::rid_of(h.last_reload_id());
+                if w.reloaded() {
+                    seen = crate::front::rid_of(h.last_reload_id());
+                } else if pre > seen {
+                    missed_reports.fetch_add(1, Ordering::Relaxed);
+                    seen = pre;
+                }
+                n += 1;
+            }
+            polls.fetch_add(n, Ordering::Relaxed);
+        }));
+    }
     let mut sent = 0usize;
     for k in 1..=writes {
         src.put("a", "x", format!("v{k}").as_bytes());
@@ -628,7 +654,8 @@ pub fn c07(args: &[String]) {
         }
     }
     trace::write_ndjson(&out, &proj).unwrap();
-    println!("REPORT {}", json!({"events":proj.len(),"torn":torn,"final_rid":crate::front::rid_of(h.last_reload_id()),"writes":writes}));
+    println!("REPORT {}", json!({"events":proj.len(),"torn":torn,"final_rid":crate::front::rid_of(h.last_reload_id()),"writes":writes,
+        "watcher_polls":polls.load(Ordering::SeqCst),"missed_reports":missed_reports.load(Ordering::SeqCst)}));
 }
 
 
